@@ -549,4 +549,37 @@ def runHistT (h : Heap) (a b : Nat) : List (Bool × MutT) → Heap
   | [] => h
   | (side, m) :: rest => runHistT (applyMutT h (if side then a else b) m) a b rest
 
+/-! #### aliased `insert_deriv` operands, and Units -/
+
+/-- `t.insert_deriv(k, d)` where `d` is ANY existing object — possibly the other object of a copy pair or one of its
+    derivatives.  `insert_deriv` (qube.py insert_deriv: "hold a separate shallow copy") always stores a NEW object on
+    the operand's ndarrays (`deriv.wod.as_float()` of a float object without derivatives is the object itself, which
+    is then cloned); refused on a read-only object. -/
+def insertAlias (h : Heap) (t k d : Nat) : Heap :=
+  if (h.obj t).ro then h else
+  let od := h.obj d
+  let c : Obj := ⟨od.vals, od.mask, od.units, [], od.ro⟩
+  let ot := h.obj t
+  let ot' : Obj := { ot with derivs := (k, h.next) :: ot.derivs.filter (fun p => p.1 != k) }
+  { h with obj := upd (upd h.obj h.next c) t ot', next := h.next + 1 }
+
+/-- `u.set_name(v)` (units.py set_name): the in-place API of a Units object.  The registries `Units.NAME_TO_UNIT`,
+    `TUPLES_TO_UNIT`, `…_LIST` are modelled in the same sort of cell: one cell per entry (its value = the unit the
+    entry points to) and one per dictionary for its key set, so that rebinding or adding an entry is a `setName` on a
+    cell that existed before the call. -/
+def renameUnits (h : Heap) (u : Nat) (v : Int) : Heap := { h with uname := upd h.uname u v }
+
+/-- the unit name an object shows (`str(x)` prints it) -/
+def Heap.unitName (h : Heap) (x : Nat) : Option Int := (h.obj x).units.map h.uname
+
+namespace Summary
+/-- `Units.mul_units(u, None, name)` / `div_units` as repaired (units.py mul_units): the operand itself when no name
+    is given, a new Units object carrying the name otherwise; `u1 * u2`, `u ** p`, `units_power`, `sqrt_units`: new -/
+def unitsMulNone (named : Bool) : List Eff :=
+  if named then [.arg 1 0, .newUnits 0, .setName 0 7] else [.arg 0 0]
+def unitsNew : List Eff := [.arg 1 0, .newUnits 0, .setName 0 7]
+/-- a write into a registry (`Units.NAME_TO_UNIT[name] = u`): argument 1 is the registry entry cell -/
+def registryWrite : List Eff := [.arg 1 1, .setName 1 5, .arg 0 0]
+end Summary
+
 end PMV.Heap
